@@ -418,6 +418,35 @@ func c12Wrap(idx int, seed uint64) {
 			return
 		}
 	}
+	// B goes on across the wrap of its own numbering (its 65536th request and beyond): every one of its
+	// requests has a non-zero identifier on the wire and completes once acknowledged
+	for i := 0; i < 300; i++ {
+		if err := issueB(); err != nil {
+			fail(err)
+			return
+		}
+		nb++
+	}
+	psB := reqsOf(b, nb)
+	if len(psB) < nb {
+		out.Violation("c12:wire", fmt.Sprintf("client B: %d requests issued, %d on the wire", nb, len(psB)), params)
+		return
+	}
+	for i, p := range psB {
+		if p.ID == 0 {
+			out.Violation("c12:packet-id-zero", fmt.Sprintf("client B's request number %d went out with packet identifier 0", i+1), params)
+			return
+		}
+	}
+	if !b.barrier(30 * time.Second) {
+		out.Inconclusive("c12wrap: no PINGRESP from B", params)
+		return
+	}
+	if d := atomic.LoadInt64(&doneB); d != int64(nb) {
+		out.Violation("c12:completion-missing:id-wrap", fmt.Sprintf("client B issued %d QoS 1 publishes on one connection (its numbering wrapped after 65535), each acknowledged by the peer at once; %d completions fired", nb, d), params)
+		return
+	}
+	out.Count("c12.wrap_own_numbering_wrapped", 1)
 	out.Count("c12.wrap_cases", 1)
 	out.Count("c12.wrap_other_client_requests", int64(nb))
 	out.Class("wrap/" + kind)
